@@ -88,7 +88,7 @@ Definition holds_conn (T c0 : Z) (sc : list (snap * Z)) (o : ckind * Z) : bool :
   | _ => false                           (* Panic, read outside the mapping, Hang *)
   end &&
   (* a driver that is alive all along is found at once; one that is dead all along is reported as such *)
-  (if forallb (fun p => snap_alive T (c0 :: clocks) (fst p)) sc && negb (length sc =? 0)%nat then kind_eqb kd KOk else true) &&
+  (if forallb (fun p => snap_alive T (c0 :: clocks) (fst p)) sc && negb (length sc =? 0)%nat then kind_eqb kd KOk && (kz =? 2) else true) &&
   (if forallb (fun p => snap_dead T (c0 :: clocks) (fst p)) sc && negb (length sc =? 0)%nat then kind_eqb kd (KErr ENoHeartbeat) else true).
 
 (* ------------------------------------------------------------------------------------------------------- *)
